@@ -1,0 +1,20 @@
+//go:build verif
+
+package transport_controller
+
+import "io"
+
+// VerifReadStreamEstablishHeader exposes readStreamEstablishHeader to the verification harness.
+func VerifReadStreamEstablishHeader(r io.Reader) (*StreamEstablish, error) {
+	return readStreamEstablishHeader(r)
+}
+
+// VerifMarshalStreamEstablishHeader exposes marshalStreamEstablishHeader to the verification harness.
+func VerifMarshalStreamEstablishHeader(msg *StreamEstablish) []byte {
+	return marshalStreamEstablishHeader(msg)
+}
+
+// VerifStreamEstablishMaxPacketSize returns the stream establish header size limit.
+func VerifStreamEstablishMaxPacketSize() uint64 {
+	return streamEstablishMaxPacketSize
+}
